@@ -192,6 +192,14 @@ where
                 self.position = cpos + block.size();
 
                 block.set_position(cpos);
+
+                // The position within the block comes from the caller (e.g., an index): it must
+                // lie within the block data.
+                if usize::from(upos) > block.data().len() {
+                    self.block = block;
+                    return Err(invalid_virtual_position_error());
+                }
+
                 block.data_mut().set_position(usize::from(upos));
 
                 block
@@ -199,6 +207,12 @@ where
             None => {
                 let mut block = Block::default();
                 block.set_position(pos.compressed());
+
+                if pos.uncompressed() > 0 {
+                    self.block = block;
+                    return Err(invalid_virtual_position_error());
+                }
+
                 block
             }
         };
@@ -262,6 +276,14 @@ where
                             self.position = cpos + block.size();
 
                             block.set_position(cpos);
+
+                            // The position within the block comes from the caller (e.g., an
+                            // index): it must lie within the block data.
+                            if usize::from(upos) > block.data().len() {
+                                self.block = block;
+                                return Poll::Ready(Err(invalid_virtual_position_error()));
+                            }
+
                             block.data_mut().set_position(usize::from(upos));
 
                             block
@@ -270,6 +292,12 @@ where
                         None => {
                             let mut block = Block::default();
                             block.set_position(pos.compressed());
+
+                            if pos.uncompressed() > 0 {
+                                self.block = block;
+                                return Poll::Ready(Err(invalid_virtual_position_error()));
+                            }
+
                             block
                         }
                     };
@@ -364,6 +392,13 @@ where
         let this = self.project();
         this.block.data_mut().consume(amt);
     }
+}
+
+fn invalid_virtual_position_error() -> io::Error {
+    io::Error::new(
+        io::ErrorKind::InvalidInput,
+        "invalid virtual position: the uncompressed offset is beyond the block data",
+    )
 }
 
 #[cfg(test)]
